@@ -148,6 +148,13 @@ def check_transition(hist, model, lab, m2, outcome, tier):
             ok = got == val
         if not ok and not (lab == "bio_add" and False):
             fails.append(f"detectability: after {lab} the {cat} detector reports {got}, requested {val}")
+        if lab.endswith("_nodepot"):
+            try:
+                depot = m2.statements.ode_system.find_depot(m2.statements)
+            except Exception:
+                depot = None
+            if depot is not None:
+                fails.append(f"detectability: {lab} was accepted but the model still has a depot compartment ({depot.name})")
         for d in after:
             if d == cat or after[d] == before[d]:
                 continue
